@@ -161,6 +161,21 @@ def handle (line : String) : String :=
               (match p.1 with | .fin q => s!"{q.num}/{q.den}" | .inf => "inf") ++ "@" ++ bitsOfFloat p.2))
           | .error e => "err " ++ errStr e
       | _, _, _ => "bad-input"
+  | "densealggen" :: scale :: f :: sigs =>
+      -- the dense-time offline visitor as translated from the source (GeneratedDense.lean) under the semantics of Dn.lean
+      match parseRat scale, parseFormula f, (sigs.filter (· ≠ "")).mapM parseDSig with
+      | some sc, some φ, some w =>
+          let cfg : Dense.DCfg := { scale := sc }
+          let fuel := 100000
+          let nanTaint := (subs φ).any (fun ψ => match Dense.Alg.evalAlg cfg w ψ with
+            | .ok l => l.any (fun p => p.2.isNaN)
+            | .error _ => false)
+          if nanTaint then "undef" else
+          match Py.Dn.evalAlgG fuel cfg w φ with
+          | .ok l => "ok " ++ " ".intercalate (l.map (fun p =>
+              (match p.1 with | .fin q => s!"{q.num}/{q.den}" | .inf => "inf") ++ "@" ++ bitsOfFloat p.2))
+          | .error e => "err " ++ errStr e
+      | _, _, _ => "bad-input"
   | "denseon" :: scale :: f :: batches =>
       -- the mirror of the dense-time online operation classes: one field per update() (`x:… & y:…`, `-` = no samples),
       -- output: the list every update() returns, `;`-separated
